@@ -240,11 +240,12 @@ class Check:
         return run.compare_script(script, c[0], m[0])
 
     # ---------------------------------------------------------------- reporting
-    def write_replay(self, name, lines, note):
+    def write_replay(self, name, lines, note, part=None):
         os.makedirs(os.path.join(VERIF, "replays"), exist_ok=True)
         path = os.path.join(VERIF, "replays", "%s-%s.ops" % (self.prop.id, name))
         with open(path, "w") as f:
-            f.write("# property=%s seed=%d tier=%s\n# %s\n" % (self.prop.id, self.seed, self.tier, note.replace("\n", "\n# ")))
+            f.write("# property=%s seed=%d tier=%s part=%s\n# %s\n" % (
+                self.prop.id, self.seed, self.tier, (part or self.prop).driver, note.replace("\n", "\n# ")))
             for ln in lines:
                 f.write(ln + "\n")
         return path
@@ -259,7 +260,7 @@ class Check:
                     self.known_hits.append(f)
                 return
         note = "%s at op %d (%s): %s" % (kind, res.get("line", -1), res.get("op"), res.get("detail"))
-        path = self.write_replay(name, script, note)
+        path = self.write_replay(name, script, note, part)
         self.violations.append((path, note, kind))
 
     def finish(self, proof):
@@ -479,8 +480,22 @@ def main(argv):
     if replay:
         chk.findings = []
         chk.prepare()
-        script = [ln.rstrip("\n") for ln in open(replay) if ln.strip() and not ln.startswith("#")]
-        c, m = chk.run_pair([script])
+        raw = open(replay).read()
+        script = [ln for ln in raw.split("\n") if ln.strip() and not ln.startswith("#")]
+        # several driver parts: the replay header names the part; otherwise take the first part whose model
+        # driver understands the first op
+        hint = re.search(r"part=(\S+)", raw.split("\n")[0] if raw else "")
+        part = None
+        for q in chk.parts():
+            if hint and q.driver == hint.group(1):
+                part = q
+        if part is None:
+            for q in chk.parts():
+                c0, m0 = chk.run_pair([script[:1]], q)
+                if m0[0][0] and m0[0][0][0] != "bad-op" and c0[0][0] and c0[0][0][0] != "bad-op":
+                    part = q
+                    break
+        c, m = chk.run_pair([script], part)
         res = run.compare_script(script, c[0], m[0])
         for k, ln in enumerate(script):
             print("op   :", ln)
